@@ -203,7 +203,7 @@ def c07(tier, seed):
     c = Check("C07", tier, seed)
     c.rule = ("MC (VirtQueueMC, Adversary=TRUE): the transcribed add/pop/recycle code against a device that writes ANY used element (ids of other chains, free descriptors, out of range) and ANY used index, queue size 2, direct / event-idx (indirect in the thorough tier): descriptor exclusivity, free-list exactness, ledger and never-blocked invariants; negative configuration (no token check) must fail. "
               "Traces: (1) the public VirtQueue API against the misbehaving reference device (bogus / duplicate / dropped completions, arbitrary lengths, index jumps), each scenario recorded twice - the device only pretending to scribble over descriptor table and available ring, and really doing it - the second recording must equal the first event for event and is validated against VirtQueue.tla (scribbling is a stuttering step); "
-              "(2) every driver (block, console, network raw+buffered, socket, input, sound, entropy, clock, 9P, GPU) on all transports under the same adversary plus garbled response bytes and arbitrary configuration-space values, configuration windows truncated to any length or missing, queue-size limits: each queue's trace validated against VirtQueue.tla with cfg.adv (the driver half of every add/pop/recycle/unshare must still be exact), the driver-level stream against Adv.tla (call ends in result, clean panic or endless wait; DMA regions released once and as allocated; no heap memory freed while shared with a live device - DRIVER_OK seen, no reset since - while the driver is in use; frame-buffer slice within its DMA region); (3) the command-response devices with scripted error / short / out-of-order answers against Cmd.tla (no DMA region released while a device resource points at it)")
+              "(2) every driver (block, console, network raw+buffered, socket, input, sound, entropy, clock, 9P, GPU) on all transports under the same adversary plus garbled response bytes and arbitrary configuration-space values, configuration windows truncated to any length or missing, queue-size limits: each queue's trace validated against VirtQueue.tla with cfg.adv (the driver half of every add/pop/recycle/unshare must still be exact), the driver-level stream against Adv.tla (call ends in result, clean panic or endless wait; DMA regions released once and as allocated; no heap memory freed while shared with a live device - DRIVER_OK seen, no reset since - while the driver is in use; frame-buffer slice within its DMA region; the console posts its single receive buffer at most once at a time whatever ids the device reports); (3) the command-response devices with scripted error / short / out-of-order answers against Cmd.tla (no DMA region released while a device resource points at it)")
     c.assumptions = ["a panic is 'clean' iff its source location is inside /repo (the crate's own checks, bounds checks and overflow checks of the profile built)",
                      "raw memory safety of accesses that change no observed value is outside what a specification can decide (DESIGN.md 5); LedgerHal bounces every buffer, so device writes cannot leave the shared range",
                      "configuration values that make a driver allocate more memory than the machine has (sound: streams) are excluded: allocator abort is resource exhaustion"]
